@@ -123,6 +123,52 @@ impl Ctx {
             let nt = results.iter().any(|r| !r.list().is_empty());
             return (input, results, nt);
         }
+        // annotation routes (6th element 2 / 3): the references are known selections and the target of
+        // one more annotation REF (Multi / Composite / Directional, or a plain text selector); the
+        // search starts from that annotation - 2: ResultItem<Annotation>::related_text, 3: the iterator
+        // adaptor AnnotationIterator::related_text over an iterator holding REF.  The model gets
+        // the references selection by selection as the annotation reports them.
+        if req.list().len() > 5 && req.nth(5).int() >= 2 {
+            let route = req.nth(5).int();
+            let mut subs: Vec<SelectorBuilder> = refs.iter().map(|(bb, ee)| SelectorBuilder::textselector("r", Offset::simple(*bb, *ee))).collect();
+            let target = if subs.len() == 1 {
+                subs.pop().unwrap()
+            } else {
+                match (refs[0].0 + refs.len()) % 3 {
+                    0 => SelectorBuilder::MultiSelector(subs),
+                    1 => SelectorBuilder::CompositeSelector(subs),
+                    _ => SelectorBuilder::DirectionalSelector(subs),
+                }
+            };
+            store.annotate(AnnotationBuilder::new().with_id("REF").with_target(target).with_data("s", "k", "v")).unwrap();
+            let ann = store.annotation("REF").unwrap();
+            let mut refsx = vec![b(false)];
+            for t in ann.textselections() {
+                refsx.push(l(vec![onat(t.handle().map(|h| h.as_usize())), a(t.begin() as i64), a(t.end() as i64)]));
+            }
+            let mut results = Vec::new();
+            for c in &codes {
+                let op = op_of_code(*c);
+                let ann2 = ann.clone();
+                let r = guard(|| {
+                    let mut v: Vec<usize> = if route == 2 {
+                        ann2.related_text(op).map(|x| x.handle().map(|h| h.as_usize()).unwrap_or(9999)).collect()
+                    } else {
+                        vec![ann2].into_iter().related_text(op).map(|x| x.handle().map(|h| h.as_usize()).unwrap_or(9999)).collect()
+                    };
+                    v.sort();
+                    v
+                });
+                results.push(match r {
+                    Some(v) => l(v.into_iter().map(|x| a(x as i64)).collect()),
+                    None => l(vec![a(-1)]),
+                });
+            }
+            let ws = l(text.chars().map(|c| b(c.is_whitespace())).collect());
+            let input = l(vec![a(len as i64), ws, req.nth(2).clone(), l(refsx), req.nth(4).clone()]);
+            let nt = results.iter().any(|r| !r.list().is_empty());
+            return (input, results, nt);
+        }
         let res = store.resource("r").unwrap();
         let reftss: Vec<ResultTextSelection> = refs.iter().map(|(bb, ee)| res.textselection(&Offset::simple(*bb, *ee)).unwrap()).collect();
         let mut refsx = vec![b(sorted)];
@@ -262,6 +308,18 @@ pub fn generate(out: &mut Out, tier: &str, seed: u64) {
                 refs.push(t);
             }
         }
+        if rng.chance(1, 4) {
+            // references that are known selections, as the target of an annotation
+            let mut rk: Vec<(usize, usize)> = Vec::new();
+            for _ in 0..1 + rng.below(3) {
+                let t = *rng.pick(&ks);
+                if !rk.contains(&t) {
+                    rk.push(t);
+                }
+            }
+            let route = 2 + rng.below(2) as i64;
+            emit(out, l(vec![a(textid), a(len as i64), pairs_sx(&ks), refs_sx(false, &rk), ropsx.clone(), a(route)]), if route == 2 { "annotation_related_text" } else { "annotation_iterator_related_text" });
+        }
         if rng.chance(1, 5) {
             // the same references through the iterator adaptor, over two resources with coinciding handles
             emit(out, l(vec![a(textid), a(len as i64), pairs_sx(&ks), refs_sx(false, &refs), ropsx.clone(), a(1)]), "adaptor_two_resources");
@@ -271,6 +329,6 @@ pub fn generate(out: &mut Out, tier: &str, seed: u64) {
     }
 }
 
-pub const RULE: &str = "exhaustive: every set of <=2 (thorough <=3) known selections over positions 0..=5 of a 5-codepoint text, <=2 over 0..=6, <=3 over 0..=4 (nested, crossing, adjacent, zero-width, touching the end, both halves), every single reference range (bound when it coincides with a known selection), every operator x all x negate x limit {None,0,1,2} x allow_whitespace, through ResultTextSelection::related_text; random: up to 8 known selections on texts of 4..24 codepoints (one family with whitespace runs longer than the limit), reference sets of 1..3 members sorted/unsorted through ResultTextSelectionSet::related_text; a fifth of the random requests once more through the iterator adaptor TextSelectionIterator::related_text over two resources with the same text and the same known selections under the same handle numbers (each reference taken in both). One evaluation = one search; results compared as sorted handle lists (duplicates visible). Non-trivial = some operator returned a non-empty result; distinct = distinct request lines.";
+pub const RULE: &str = "exhaustive: every set of <=2 (thorough <=3) known selections over positions 0..=5 of a 5-codepoint text, <=2 over 0..=6, <=3 over 0..=4 (nested, crossing, adjacent, zero-width, touching the end, both halves), every single reference range (bound when it coincides with a known selection), every operator x all x negate x limit {None,0,1,2} x allow_whitespace, through ResultTextSelection::related_text; random: up to 8 known selections on texts of 4..24 codepoints (one family with whitespace runs longer than the limit), reference sets of 1..3 members sorted/unsorted through ResultTextSelectionSet::related_text; a fifth of the random requests once more through the iterator adaptor TextSelectionIterator::related_text over two resources with the same text and the same known selections under the same handle numbers (each reference taken in both); a quarter once more with 1..3 known selections as the target of an annotation (plain, Multi, Composite, Directional), searched from through ResultItem<Annotation>::related_text and through AnnotationIterator::related_text. One evaluation = one search; results compared as sorted handle lists (duplicates visible). Non-trivial = some operator returned a non-empty result; distinct = distinct request lines.";
 
 pub const EXHAUSTIVE: bool = true;
